@@ -447,12 +447,14 @@ class TaskScenario(ScenarioData):
         if self.currentSlotIdx is None:
             if forward:
                 start_date = self.property.get("start", self.scenarioIdx)
-                if start_date:
+                # A start inherited from a dated container is a lower bound, not a date pinned on this
+                # task: the task still waits for its predecessors.
+                if start_date and not self.property.inherited("start", self.scenarioIdx):
                     self.currentSlotIdx = self.project.dateToIdx(start_date)
                 else:
                     # ASAP mode, start at project start or after dependencies
                     # Check ALL dependencies (including inherited) to find the earliest start
-                    earliest_start = self.project["start"]
+                    earliest_start = start_date if start_date else self.project["start"]
                     for dep in self.getAllDependencies():
                         # dep can be a dict with 'task' key (new format with gap),
                         # or a Task object directly (old format)
